@@ -455,3 +455,42 @@ def mode_setters(F):
                     r.violate("%s | %s conditional" % (ai["path"], m), F.loc(ai, arm), "add_instr files %s-mode code only under a condition: an accepted injection is silently dropped for some instructions" % m)
     r.count("plain_mode_arms", n)
     return r
+
+
+def mode_helpers(F):
+    """R-MODE-HELPERS: the name of every mode-selecting helper of the injection API denotes the mode constant it sets:
+    before/after/alternate/semantic_after/block_entry/block_exit/block_alt (+ `_at` variants) ↦ InstrumentationMode::<Camel>,
+    func_entry/func_exit ↦ FuncInstrMode::Entry/Exit.  (18 one-line default methods; a copy-paste slip among them compiles.)"""
+    r = RuleResult("R-MODE-HELPERS",
+                   "every mode-selecting helper (before, after, alternate, semantic_after, block_entry, block_exit, block_alt, their _at forms, func_entry, func_exit) passes the mode constant its name denotes to the mode setter, exactly once")
+    n = 0
+    for fn in F.fns:
+        if fn.get("body") is None:
+            continue
+        nm = fn["name"]
+        base = nm[:-3] if nm.endswith("_at") else nm
+        if base.startswith("func_"):
+            want_adt, want = FM, base[5:].capitalize()
+        else:
+            want_adt, want = IM, "".join(p.capitalize() for p in base.split("_"))
+        if want not in F.variants(want_adt) or base.startswith(("empty_", "set_", "curr_", "get_", "add_", "clear_")):
+            continue
+        # a helper = a method whose body calls a mode setter with a constant
+        sets = []
+        for c in walk(fn["body"]):
+            if c.get("k") == "MethodCall" and c["method"] in ("set_instrument_mode", "set_instrument_mode_at", "set_func_instrument_mode") and c["args"]:
+                a0 = peel(c["args"][0])
+                if a0.get("k") == "Path" and a0.get("res", {}).get("variant"):
+                    sets.append((c, a0["res"].get("adt"), a0["res"]["variant"]))
+        if not sets:
+            continue
+        n += 1
+        r.analysed.append(fn["path"])
+        ok = len(sets) == 1 and sets[0][1] == want_adt and sets[0][2] == want and not (conditional_ancestors(fn["body"], sets[0][0]) or [])
+        r.ob(ok, {"helper": fn["path"].split("::")[-1], "sets": [s_[2] for s_ in sets], "expected": want})
+        if not ok:
+            r.violate("%s | mode constant" % fn["path"], F.loc(fn), "helper `%s` selects mode %s; its name denotes %s: code injected after it is lowered as a different kind of probe" % (nm, [s_[2] for s_ in sets], want))
+    r.count("mode_helpers", n)
+    if n < 14:
+        raise CheckError("expected ≥14 mode-selecting helpers, found %d" % n)
+    return r
